@@ -5,6 +5,8 @@ import (
 	"bytes"
 	"errors"
 	"fmt"
+	"hash/adler32"
+	"hash/crc32"
 	"io"
 
 	sflate "compress/flate"
@@ -15,6 +17,7 @@ import (
 	"fgverif/impl"
 	"fgverif/mon"
 	"fgverif/refinf"
+	"fgverif/synth"
 )
 
 // Sink is the destination handed to Writers: records every call, can fail.
@@ -429,3 +432,45 @@ func isDelegatedDictReplay(decoded, data, dict []byte) bool {
 }
 
 func implErrClass(err error) string { return impl.ErrClass(err) }
+
+func adler(b []byte) uint32 { return adler32.Checksum(b) }
+
+func be32(v uint32) []byte { return []byte{byte(v >> 24), byte(v >> 16), byte(v >> 8), byte(v)} }
+func le32(v uint32) []byte { return []byte{byte(v), byte(v >> 8), byte(v >> 16), byte(v >> 24)} }
+
+func gzipTrailer(plain []byte) []byte {
+	return append(le32(crc32.ChecksumIEEE(plain)), le32(uint32(len(plain)))...)
+}
+
+// encodeDictStd compresses with the standard library's dictionary writer.
+// (Used only where the exact stream does not matter: see sigDictReplay.)
+func encodeDictStd(data []byte, level int, dict []byte) ([]byte, error) {
+	var b bytes.Buffer
+	w, err := sflate.NewWriterDict(&b, level, dict)
+	if err != nil {
+		return nil, err
+	}
+	w.Write(data)
+	w.Close()
+	return b.Bytes(), nil
+}
+
+// synthDictStream builds a raw DEFLATE stream whose matches may reach into a
+// preset dictionary, with the plaintext it stands for.
+func synthDictStream(r *gen.Rand, dict []byte, n int) (stream, plain []byte) {
+	s := synth.NewStream(r)
+	toks := synth.RandomTokens(r, len(dict), n, "mixed")
+	full, ok := synth.Apply(append([]byte(nil), dict...), toks)
+	if !ok {
+		panic("synthDictStream: tokens not applicable")
+	}
+	if r.Bool() {
+		s.Fixed(true, toks, true)
+	} else {
+		lit, dist := synth.LengthsFor(r, toks, synth.CodeOpts{})
+		sp := synth.NewDynSpec()
+		sp.LitLens, sp.DistLens = lit, dist
+		s.Dynamic(true, toks, sp, true)
+	}
+	return s.W.Bytes(), full[len(dict):]
+}
